@@ -15,10 +15,14 @@ SEEDED = os.path.join(HERE, "seeded")
 ALL = [f"C{i:02d}" for i in range(1, 21)]
 
 
-def sh(cmd, cwd=None, env=None, timeout=3600):
+def sh(cmd, cwd=None, env=None, timeout=1500):
     e = dict(os.environ)
     e.update(env or {})
-    p = subprocess.run(cmd, shell=True, cwd=cwd, env=e, capture_output=True, text=True, timeout=timeout)
+    try:
+        p = subprocess.run(cmd, shell=True, cwd=cwd, env=e, capture_output=True, text=True, timeout=timeout)
+    except subprocess.TimeoutExpired:
+        subprocess.run("pkill -f 'mc.ru[n] --property' ; true", shell=True)
+        return 124, "TIMEOUT"
     return p.returncode, p.stdout + p.stderr
 
 
